@@ -32,7 +32,7 @@ func checkC02(c *km.Ctx) {
 	if fn := c.MustFunc("R-C02-1", "lib/certgen", "GenSSHCertFileString"); fn != nil {
 		sshT := "golang.org/x/crypto/ssh.Certificate"
 		st := storesByField(fn, sshT)
-		user, keyStr, custom := fn.Params[0], fn.Params[1], fn.Params[5]
+		user, keyStr, custom := km.ParamAt(fn, 0), km.ParamAt(fn, 1), km.ParamAt(fn, 5)
 		one := func(field, req string, pred func(v ssa.Value) bool) {
 			ss := st[field]
 			if len(ss) == 0 {
@@ -295,7 +295,7 @@ func checkC02(c *km.Ctx) {
 			}
 			under := rc.State.All(func(k km.Conj) bool {
 				for _, f := range k.List() {
-					if cs, isC := km.ConstString(f.Y); isC && f.Op == token.EQL && cs == "USERNAME" && km.Unwrap(f.X) == ssa.Value(mapper.Params[0]) {
+					if cs, isC := km.ConstString(f.Y); isC && f.Op == token.EQL && cs == "USERNAME" && km.Unwrap(f.X) == ssa.Value(km.ParamAt(mapper, 0)) {
 						return true
 					}
 				}
@@ -312,11 +312,11 @@ func checkC02(c *km.Ctx) {
 				b := mc.Bindings[0]
 				if a, isA := b.(*ssa.Alloc); isA {
 					for _, ref := range *a.Referrers() {
-						if st, isS := ref.(*ssa.Store); isS && st.Val == ssa.Value(fn.Params[1]) {
+						if st, isS := ref.(*ssa.Store); isS && st.Val == ssa.Value(km.ParamAt(fn, 1)) {
 							bound = true
 						}
 					}
-				} else if km.Unwrap(b) == ssa.Value(fn.Params[1]) {
+				} else if km.Unwrap(b) == ssa.Value(km.ParamAt(fn, 1)) {
 					bound = true
 				}
 			}
